@@ -1339,8 +1339,87 @@ def search(ctx, deep, only=None):
                         continue
                     if not snap_equal(y, x):
                         dsf('numpy-int-seed-differs-from-int', f'{T.__name__}({s_val}) gives other data than the int', 'same value, same data')
+    # ---- O12 conditional Gaussian sampling: a condition is a MAPPING column -> value; dict-equal conditions
+    #      (other insertion order, or a Series) are the same call: equal models, same seed => identical bits
+    if only is None or only.startswith('GaussianMultivariate'):
+        for label, proto in cond_models():
+            cols = list(proto.columns)
+            for _ in range(2 * rounds):
+                k = rng.choice((2, 3, 4))
+                picked = set(rng.sample(cols, k))
+                chosen = [c for c in cols if c in picked]                            # model column order
+                conds = {c: round(rng.uniform(-1.5, 1.5), 3) if c != 'f' else round(rng.uniform(0.3, 2.0), 3) for c in chosen}
+                seed = rng.choice(SEED_VALUES + SEEDS)
+                as_obj = rng.random() < 0.5
+                n1 = rng.choice((1, 3, 4))
+
+                def drive(mapping):
+                    m = copy.deepcopy(proto)
+                    m.set_random_state(np.random.RandomState(seed) if as_obj else seed)
+                    return [snapshot(m.sample(r, conditions=cd)) for r, cd in ((3, None), (n1, mapping), (2, mapping), (3, None))]
+                np.random.seed(rng.randrange(1000, 10 ** 6))
+                g0 = gdig()
+                reference = drive(dict(conds))
+                rev = {c: conds[c] for c in reversed(chosen)}
+                perm = list(chosen)
+                rng.shuffle(perm)
+                variants = [('dict, reversed key order', rev), ('dict, permuted key order', {c: conds[c] for c in perm}),
+                            ('Series, column order', pd.Series(conds)), ('Series, reversed', pd.Series(rev)),
+                            ('Series, permuted', pd.Series({c: conds[c] for c in perm}))]
+                for vlabel, mapping in variants:
+                    checks += 1
+                    inp = {'model': label, 'columns': cols, 'conditions': conds, 'given_as': vlabel,
+                           'key_order': [str(c) for c in (mapping.index if isinstance(mapping, pd.Series) else mapping)],
+                           'seed': seed, 'seed_as': 'RandomState' if as_obj else 'int',
+                           'calls': [[3, None], [n1, 'conditions'], [2, 'conditions'], [3, None]]}
+                    try:
+                        got = drive(mapping)
+                    except Exception as e:  # noqa
+                        found += 1
+                        ctx.fail_input('GaussianMultivariate.sample', inp, f'raised {type(e).__name__}: {str(e)[:80]}',
+                                       'dict-equal conditions are the same call', 'GaussianMultivariate.sample:conditions-container-rejected')
+                        continue
+                    diff = [i for i, (a, b) in enumerate(zip(reference, got)) if not snap_equal(a, b)]
+                    if diff:
+                        found += 1
+                        i = diff[0]
+                        worst = float(np.nanmax(np.abs(reference[i][1] - got[i][1]))) if reference[i][1].shape == got[i][1].shape else None
+                        ctx.fail_input('GaussianMultivariate.sample', inp,
+                                       {'first_differing_call': i, 'max_abs_diff': worst},
+                                       'two equal models with the same seed and the same (dict-equal) sequence of calls produce '
+                                       'bit-identical streams', 'GaussianMultivariate.sample:conditions-order-changes-stream')
+                checks += 1
+                if gdig() != g0:
+                    found += 1
+                    ctx.fail_input('GaussianMultivariate.sample', {'model': label, 'conditions': conds, 'seed': seed},
+                                   'np.random.get_state() changed', 'seeded conditional sampling leaves the global state as it was',
+                                   'GaussianMultivariate.sample:global-perturbed')
     ctx.support = {'oracle_checks': checks, 'failures': found, 'deep': deep,
                    'table': 'repaired' if table.get('Univariate') else 'as-found'}
+
+
+_COND = None
+
+
+def cond_models():
+    """two fitted six-column GaussianMultivariate models (fits are outside C15), for conditional sampling."""
+    global _COND
+    if _COND is None:
+        from copulas import univariate as U
+        from copulas.multivariate import GaussianMultivariate
+        g = np.random.RandomState(1)
+        z = g.normal(size=(300, 6))
+        data = pd.DataFrame(z @ g.normal(size=(6, 6)), columns=list('abcdef'))
+        data['f'] = np.exp(data['f'] / 3)
+        data['c'] = data['c'] ** 3
+        _COND = []
+        for label, dist in (('gauss', U.GaussianUnivariate),
+                            ('mixed', {'a': U.UniformUnivariate, 'c': U.GaussianKDE, 'f': U.GammaUnivariate, 'b': U.GaussianUnivariate,
+                                       'd': U.StudentTUnivariate, 'e': U.GaussianUnivariate})):
+            m = GaussianMultivariate(distribution=dist)
+            m.fit(data)
+            _COND.append((f'GaussianMultivariate(6 cols, {label})', m))
+    return _COND
 
 
 def replay(ctx, payload):
